@@ -39,6 +39,11 @@ R18.12 an RM which consults rm_info.threads_per_core hands it to a parameter
        it into the tuples itself)
 R18.13 a find()-cursor loop of an RM drops exactly the separator between two
        chunks: chunk offset + advance offset == len(separator)
+R18.14 the raise by which a count-detecting helper (one count drawn from a set
+       of detected counts) refuses two or more distinct counts leaves
+       init_from_scratch: a handler on its way which catches that type
+       re-raises it (tests on the message evaluated on the text raised) - or
+       nothing behind the handler sizes all hosts with one count
 """
 
 import ast
@@ -3004,6 +3009,581 @@ def r18_10(prog, rep, table, rid='R18.10'):
 
 
 # ------------------------------------------------------------------------------
+# R18.14  a refusal of a non-uniform allocation is not swallowed on the way to
+#         the caller of init_from_scratch (handler discipline)
+#
+# A *refusing helper* draws ONE count from a set of detected counts
+# (`ncpus_set.pop()`, `cores_per_node.pop()`) and raises when the set holds
+# more than one: the RM cannot describe such an allocation with one
+# cores-per-node figure.  That raise is the pilot's way of not offering what
+# it was not given; it has to leave init_from_scratch.  A handler between the
+# helper and the caller which catches the raised type must re-raise this very
+# exception (its tests on the message are evaluated on the text the helper
+# raises with); if it can complete normally and the code behind it sizes the
+# node entries with ONE count for all hosts (`_parse_nodefile(cpn=...)`, tuples
+# made with rm_info.<attr>), hosts are offered with a count they do not have.
+#
+import builtins as _bi
+
+SET_CTORS = {'set', 'frozenset'}
+DRAW_FUNCS = {'min', 'max'}
+
+
+def _is_set_ctor(v):
+    return isinstance(v, (ast.Set, ast.SetComp)) or \
+        isinstance(v, ast.Call) and call_name(v) in SET_CTORS
+
+
+def _drawn_name(e):
+    """S if e takes one element out of the collection named S"""
+    if isinstance(e, ast.Call) and isinstance(e.func, ast.Attribute) and \
+            e.func.attr == 'pop' and not e.args and \
+            isinstance(e.func.value, ast.Name):
+        return e.func.value.id
+    if isinstance(e, ast.Call) and call_name(e) in DRAW_FUNCS and \
+            len(e.args) == 1 and isinstance(e.args[0], ast.Name):
+        return e.args[0].id
+    if isinstance(e, ast.Call) and call_name(e) == 'next' and e.args and \
+            isinstance(e.args[0], ast.Call) and \
+            call_name(e.args[0]) == 'iter' and len(e.args[0].args) == 1 and \
+            isinstance(e.args[0].args[0], ast.Name):
+        return e.args[0].args[0].id
+    if isinstance(e, ast.Subscript) and isinstance(e.slice, ast.Constant) and \
+            isinstance(e.slice.value, int) and isinstance(e.value, ast.Call) \
+            and call_name(e.value) in ('list', 'sorted', 'tuple') and \
+            len(e.value.args) == 1 and \
+            isinstance(e.value.args[0], ast.Name):
+        return e.value.args[0].id
+    return None
+
+
+class _CountSets(Distinct):
+    """Distinct for a helper without a node-tuple parameter: the collection of
+    distinct counts is a set built in the function from which one element is
+    drawn into the function's result"""
+
+    def __init__(self, f, g):
+        from ..flow import reaching_defs
+        smap = I.stmt_node_map(g)
+        setdefs = {n.id for n in g.nodes if n.kind == 'stmt' and
+                   isinstance(n.ast, ast.Assign) and _is_set_ctor(n.ast.value)}
+        returned = set()
+        for n in walk(f.node):
+            if isinstance(n, ast.Return) and n.value is not None:
+                returned |= names_in_expr(n.value)
+        self.count_defs = set()
+        names = set()
+        for x in walk(f.node):
+            s = _drawn_name(x)
+            at = smap.get(id(x))
+            if s is None or at is None:
+                continue
+            st = at.ast
+            flows = isinstance(st, ast.Return) or \
+                isinstance(st, ast.Assign) and any(
+                    set(stores_of(t)) & returned for t in st.targets)
+            if not flows:
+                continue
+            defs = reaching_defs(g, s, at.id)
+            if defs and all(d.id in setdefs for d, v in defs):
+                self.count_defs |= {d.id for d, v in defs}
+                names.add(s)
+        self.params = {p for p in f.params if p not in ('self', 'cls')}
+        Distinct.__init__(self, f, g, _derived_names(f, names | self.params))
+
+    def is_distinct(self, e, at, depth=0):
+        from ..flow import reaching_defs
+        if isinstance(e, ast.Name):
+            defs = reaching_defs(self.g, e.id, at)
+            if defs and all(d.id in self.count_defs for d, v in defs):
+                return True
+        return Distinct.is_distinct(self, e, at, depth)
+
+    def _collection(self, e, at, depth=0):
+        """e holds one element per detected count / node tuple (not filtered):
+        it is empty only if nothing was detected"""
+        from ..flow import reaching_defs
+        if depth > 6:
+            return False
+        if isinstance(e, (ast.ListComp, ast.SetComp, ast.GeneratorExp)):
+            return len(e.generators) == 1 and not e.generators[0].ifs and \
+                self._collection(e.generators[0].iter, at, depth + 1)
+        if isinstance(e, ast.Call) and call_name(e) in (
+                'list', 'sorted', 'set', 'tuple', 'frozenset') and \
+                len(e.args) == 1:
+            return self._collection(e.args[0], at, depth + 1)
+        if isinstance(e, ast.Name):
+            defs = reaching_defs(self.g, e.id, at)
+            if not defs:
+                return e.id in self.params
+            return all(v is not None and
+                       self._collection(v, d.id, depth + 1) for d, v in defs)
+        return False
+
+    def truth(self, e, at, L, depth=0):
+        if L > 0 and not isinstance(e, (ast.BoolOp, ast.UnaryOp)) and \
+                self._collection(e, at):
+            return True
+        return Distinct.truth(self, e, at, L, depth)
+
+
+def _pruned(g, dd, L):
+    skip = []
+    for n in g.nodes:
+        if n.kind != 'test':
+            continue
+        t = dd.truth(n.ast, n.id, L)
+        if t is True:
+            skip.append((n.id, 'F'))
+        elif t is False:
+            skip.append((n.id, 'T'))
+    return g.reachable(g.entry.id, skip_edges=skip)
+
+
+def _msg_of(exc):
+    """(leading text, complete?) of the message a `raise X(<msg>)` carries"""
+    if not isinstance(exc, ast.Call) or not exc.args:
+        return ('', not (isinstance(exc, ast.Call) and exc.keywords))
+    a = exc.args[0]
+    if len(exc.args) > 1:
+        return ('', False)
+    if isinstance(a, ast.Constant) and isinstance(a.value, str):
+        return (a.value, True)
+    if isinstance(a, ast.BinOp) and isinstance(a.op, ast.Mod) and \
+            isinstance(a.left, ast.Constant) and isinstance(a.left.value, str):
+        return (a.left.value.split('%', 1)[0], False)
+    if isinstance(a, ast.BinOp) and isinstance(a.op, ast.Add) and \
+            isinstance(a.left, ast.Constant) and isinstance(a.left.value, str):
+        return (a.left.value, False)
+    if isinstance(a, ast.JoinedStr):
+        lead = ''
+        for v in a.values:
+            if isinstance(v, ast.Constant) and isinstance(v.value, str):
+                lead += v.value
+            else:
+                return (lead, False)
+        return (lead, True)
+    if isinstance(a, ast.Call) and isinstance(a.func, ast.Attribute) and \
+            a.func.attr == 'format' and isinstance(a.func.value, ast.Constant) \
+            and isinstance(a.func.value.value, str):
+        return (a.func.value.value.split('{', 1)[0], False)
+    return ('', False)
+
+
+def refusals_of(prog, h):
+    """[(raise stmt, type expr, (text, complete))]: the raises by which h
+    refuses a set of two or more distinct counts (reachable for 2 and for 3
+    distinct values, not for 1)"""
+    g = cfg_of(h)
+    dd = _CountSets(h, g)
+    if not dd.count_defs and not dd.params:
+        return []
+    one = _pruned(g, dd, 1)
+    more = _pruned(g, dd, 2) & _pruned(g, dd, 3)
+    out = []
+    for n in g.nodes:
+        if n.kind == 'stmt' and isinstance(n.ast, ast.Raise) and \
+                n.id in more and n.id not in one and n.ast.exc is not None:
+            exc = n.ast.exc
+            out.append((n.ast, exc.func if isinstance(exc, ast.Call) else exc,
+                        _msg_of(exc)))
+    return out
+
+
+def _exc_chain(prog, mod, expr):
+    """names of the exception type `expr` and of its bases (package classes by
+    their `where`, builtins by name); None if it does not resolve"""
+    nm = unparse(expr)
+    b = getattr(_bi, nm, None)
+    if isinstance(b, type) and issubclass(b, BaseException):
+        return [k.__name__ for k in b.__mro__ if k is not object]
+    r = prog.resolve(mod, expr)
+    if not r or r[0] != 'class':
+        return None
+    out = []
+    for k in prog.mro(r[1]):
+        out.append(k.where)
+        for bx in k.node.bases:
+            bb = getattr(_bi, unparse(bx), None)
+            if isinstance(bb, type) and issubclass(bb, BaseException):
+                out += [q.__name__ for q in bb.__mro__ if q is not object]
+    return out
+
+
+def _exc_ident(prog, mod, expr):
+    ch = _exc_chain(prog, mod, expr)
+    return ch[0] if ch else None
+
+
+def _catches(prog, fn, handler, chain):
+    """does `handler` of fn catch an exception with the base chain `chain`?"""
+    if handler.type is None:
+        return True
+    types = handler.type.elts if isinstance(handler.type, ast.Tuple) \
+        else [handler.type]
+    for t in types:
+        ident = _exc_ident(prog, fn.module, t)
+        if ident is None:
+            raise AnalysisError('UNRECOGNISED-IDIOM %s: exception type `%s` '
+                                'of a handler does not resolve'
+                                % (fn.where, short(t, 40)))
+        if ident in chain:
+            return True
+    return False
+
+
+class _HandlerEval:
+    """can a handler complete normally (fall through, return, continue, break)
+    for one given exception?"""
+
+    def __init__(self, prog, fn, g, handler, chain, msg):
+        self.prog, self.fn, self.g = prog, fn, g
+        self.h, self.chain, self.msg = handler, chain, msg
+        self.var = handler.name
+        self.inside = {id(x) for s in handler.body for x in ast.walk(s)}
+
+    def _is_exc(self, e):
+        return self.var is not None and isinstance(e, ast.Name) and \
+            e.id == self.var
+
+    def _is_text(self, e, at, depth=0):
+        """e is the text of the exception"""
+        from ..flow import reaching_defs
+        if depth > 6:
+            return False
+        if isinstance(e, ast.Call) and call_name(e) in ('str', 'repr') and \
+                len(e.args) == 1 and self._is_exc(e.args[0]):
+            return call_name(e) == 'str'
+        if isinstance(e, ast.Subscript) and \
+                isinstance(e.slice, ast.Constant) and e.slice.value == 0 and \
+                isinstance(e.value, ast.Attribute) and \
+                e.value.attr == 'args' and self._is_exc(e.value.value):
+            return True
+        if isinstance(e, ast.BinOp) and isinstance(e.op, ast.Mod) and \
+                isinstance(e.left, ast.Constant) and e.left.value == '%s' and \
+                self._is_exc(e.right):
+            return True
+        if isinstance(e, ast.Name):
+            defs = reaching_defs(self.g, e.id, at)
+            return len(defs) == 1 and defs[0][1] is not None and \
+                id(defs[0][0].ast) in self.inside and \
+                self._is_text(defs[0][1], defs[0][0].id, depth + 1)
+        return False
+
+    def _consts(self, e):
+        v = self.prog.fold(self.fn.module, e, self.fn.cls)
+        if isinstance(v, str):
+            return [v]
+        if isinstance(v, (tuple, list)) and v and \
+                all(isinstance(x, str) for x in v):
+            return list(v)
+        return None
+
+    def _starts(self, c):
+        text, complete = self.msg
+        if complete or len(text) >= len(c):
+            return text.startswith(c)
+        return None if c.startswith(text) else False
+
+    def _contains(self, c):
+        text, complete = self.msg
+        if complete:
+            return c in text
+        return True if c in text else None
+
+    def _equals(self, c):
+        text, complete = self.msg
+        if complete:
+            return text == c
+        return None if c.startswith(text) else False
+
+    def truth(self, e, at, depth=0):
+        from ..flow import reaching_defs
+        if depth > 8:
+            return None
+        if isinstance(e, ast.UnaryOp) and isinstance(e.op, ast.Not):
+            t = self.truth(e.operand, at, depth + 1)
+            return None if t is None else not t
+        if isinstance(e, ast.BoolOp):
+            ts = [self.truth(v, at, depth + 1) for v in e.values]
+            if isinstance(e.op, ast.And):
+                return False if any(t is False for t in ts) else \
+                    True if all(t is True for t in ts) else None
+            return True if any(t is True for t in ts) else \
+                False if all(t is False for t in ts) else None
+        if isinstance(e, ast.Call) and isinstance(e.func, ast.Attribute) and \
+                e.func.attr in ('startswith', 'endswith') and \
+                len(e.args) == 1 and self._is_text(e.func.value, at):
+            cs = self._consts(e.args[0])
+            if cs is None:
+                return None
+            if e.func.attr == 'endswith':
+                if not self.msg[1]:
+                    return None
+                return any(self.msg[0].endswith(c) for c in cs)
+            ts = [self._starts(c) for c in cs]
+            return True if any(t is True for t in ts) else \
+                False if all(t is False for t in ts) else None
+        if isinstance(e, ast.Compare) and len(e.ops) == 1:
+            l, r, op = e.left, e.comparators[0], e.ops[0]
+            if isinstance(op, (ast.In, ast.NotIn)) and self._is_text(r, at):
+                cs = self._consts(l)
+                t = self._contains(cs[0]) if cs and len(cs) == 1 else None
+                return t if t is None or isinstance(op, ast.In) else not t
+            if isinstance(op, (ast.Eq, ast.NotEq)):
+                t = None
+                if self._is_text(l, at):
+                    cs = self._consts(r)
+                    t = self._equals(cs[0]) if cs and len(cs) == 1 else None
+                elif self._is_text(r, at):
+                    cs = self._consts(l)
+                    t = self._equals(cs[0]) if cs and len(cs) == 1 else None
+                return t if t is None or isinstance(op, ast.Eq) else not t
+            return None
+        if isinstance(e, ast.Call) and call_name(e) == 'isinstance' and \
+                len(e.args) == 2 and self._is_exc(e.args[0]):
+            types = e.args[1].elts if isinstance(e.args[1], ast.Tuple) \
+                else [e.args[1]]
+            ids = [_exc_ident(self.prog, self.fn.module, t) for t in types]
+            if None in ids:
+                return None
+            return any(i in self.chain for i in ids)
+        if isinstance(e, ast.Name):
+            defs = reaching_defs(self.g, e.id, at)
+            if len(defs) == 1 and defs[0][1] is not None and \
+                    id(defs[0][0].ast) in self.inside:
+                return self.truth(defs[0][1], defs[0][0].id, depth + 1)
+        return None
+
+    def _about_exc(self, e, at, depth=0):
+        """does the (undecided) test look at the exception?"""
+        from ..flow import reaching_defs
+        if self.var is None:
+            return False
+        for x in walk(e, nested=True):
+            if not isinstance(x, ast.Name):
+                continue
+            if x.id == self.var:
+                return True
+            if depth < 4:
+                for d, v in reaching_defs(self.g, x.id, at):
+                    if v is not None and id(d.ast) in self.inside and \
+                            self._about_exc(v, d.id, depth + 1):
+                        return True
+        return False
+
+    def run(self):
+        """-> ('raises', rethrown) | ('completes', first node id behind the
+        handler) | ('unknown', test): `rethrown` is True when every leaving
+        path re-raises the caught exception itself"""
+        g = self.g
+        hn = [n for n in g.nodes if n.kind == 'handler' and n.ast is self.h]
+        if not hn:
+            raise AnalysisError('UNRECOGNISED-IDIOM %s: handler `%s` has no '
+                                'node' % (self.fn.where, short(self.h, 40)))
+        todo, seen = [hn[0].id], set()
+        out, same, undecided = None, True, None
+        while todo:
+            nid = todo.pop()
+            if nid in seen:
+                continue
+            seen.add(nid)
+            n = g.nodes[nid]
+            if nid != hn[0].id and (
+                    n.ast is not None and id(n.ast) not in self.inside
+                    or n.kind in ('exit',)):
+                out = nid if out is None else out
+                continue
+            if n.kind == 'stmt' and isinstance(n.ast, ast.Raise):
+                x = n.ast.exc
+                if not (x is None or self._is_exc(x)):
+                    same = False
+                continue
+            t = None
+            if n.kind == 'test':
+                t = self.truth(n.ast, nid)
+                if t is None and self._about_exc(n.ast, nid):
+                    undecided = undecided or n.ast
+            for e in g.succ[nid]:
+                if e.label == 'exc':
+                    continue
+                if t is True and e.label == 'F' or \
+                        t is False and e.label == 'T':
+                    continue
+                todo.append(e.dst)
+        if out is None:
+            return ('raises', same)
+        if undecided is not None:
+            return ('unknown', undecided)
+        return ('completes', out)
+
+
+def _imposes_count(prog, fn, K, g, smap, start):
+    """a statement reachable from node `start` of fn which gives every host
+    the same count: `_parse_nodefile(.., cpn=<may be true>)`, or a node tuple
+    made with an attribute of the RMInfo; -> text | None"""
+    reach = g.reachable(start)
+    for c in calls_in(fn.node):
+        n = smap.get(id(c))
+        if n is None or n.id not in reach:
+            continue
+        if call_name(c).endswith('._parse_nodefile'):
+            parser = prog.resolve_call(fn, c, K)
+            if parser is None:
+                continue
+            ps = [p for p in parser.params if p != 'self']
+            if 'cpn' not in ps:
+                continue
+            cpn = bind_args(parser, c).get('cpn')
+            if cpn is None:
+                continue
+            v = prog.fold(fn.module, cpn, fn.cls)
+            if v is not UNKNOWN and not v:
+                continue
+            return '`%s` gives every host of the node file the count `%s`' \
+                % (short(c, 60), short(cpn, 40))
+    params = [p for p in fn.params if p != 'self']
+    for c in calls_in(fn.node):
+        n = smap.get(id(c))
+        if n is None or n.id not in reach or not params or \
+                call_name(c) != 'self._get_node_list' or not c.args:
+            continue
+        for stmt, rd in embedded_reads(fn, params[0], c.args[0]):
+            m = smap.get(id(stmt))
+            if m is not None and m.id in reach and \
+                    isinstance(stmt, (ast.Assign, ast.AugAssign, ast.Call)):
+                return '`%s` gives every host rm_info.%s' \
+                    % (short(stmt, 60), '/'.join(sorted(rd)))
+    return None
+
+
+def r18_14(prog, rep, table, rid='R18.14'):
+    rep.rule(rid, 'the raise by which a count-detecting helper refuses two or '
+             'more distinct counts (it hands ONE count on) leaves '
+             'init_from_scratch: a handler on its way which catches the type '
+             're-raises that exception (message tests evaluated on the text '
+             'raised), or nothing behind it sizes all hosts with one count',
+             minimum=6)
+    base = prog.cls(*RM)
+    top = prog.method(RM[0], RM[1], '_init_from_scratch')
+    memo = {}
+    seen_sites = set()
+
+    def escapes(fn, K, depth=0):
+        """refusals which can leave fn: [(raise, type chain, msg, origin)]"""
+        key = (fn.where, K.where)
+        if key in memo:
+            return memo[key]
+        memo[key] = []
+        out = []
+        for r, texpr, msg in refusals_of(prog, fn):
+            chain = _exc_chain(prog, fn.module, texpr)
+            if chain is None:
+                raise AnalysisError('UNRECOGNISED-IDIOM %s: exception type of '
+                                    '`%s` does not resolve'
+                                    % (fn.where, short(r, 60)))
+            out.append((r, chain, msg, fn))
+        if depth >= 4:
+            memo[key] = out
+            return out
+        g = cfg_of(fn)
+        smap = I.stmt_node_map(g)
+        for c in calls_in(fn.node):
+            cn = call_name(c)
+            if not cn.startswith(('self.', 'super().', 'cls.')):
+                continue
+            callee = prog.resolve_call(fn, c, K)
+            n = smap.get(id(c))
+            if callee is None or callee is fn or n is None:
+                continue
+            for r, chain, msg, origin in escapes(callee, K, depth + 1):
+                left = decide(fn, K, g, smap, c, n, r, chain, msg, origin)
+                if left:
+                    out.append((r, chain, msg, origin))
+        memo[key] = out
+        return out
+
+    def decide(fn, K, g, smap, c, n, r, chain, msg, origin):
+        """evaluate the handlers of fn around call node n for refusal r;
+        True if the exception leaves fn"""
+        site = (fn.where, c.lineno, c.col_offset, origin.where, r.lineno)
+        first = site not in seen_sites
+        seen_sites.add(site)
+        what = '`%s` of %s' % (short(r, 60), origin.qual)
+        for t in reversed(n.tries):
+            if not any(x is c for s in t.body for x in ast.walk(s)):
+                continue
+            hit = None
+            for h in t.handlers:
+                if _catches(prog, fn, h, chain):
+                    hit = h
+                    break
+            if hit is None:
+                continue
+            res = _HandlerEval(prog, fn, g, hit, chain, msg).run()
+            if res[0] == 'unknown':
+                raise AnalysisError(
+                    'UNRECOGNISED-IDIOM %s: cannot evaluate `%s` of the '
+                    'handler `except %s` for %s'
+                    % (fn.where, short(res[1], 50),
+                       short(hit.type, 40) if hit.type else '', what))
+            if res[0] == 'raises':
+                if res[1]:
+                    continue                 # re-raised as it is: next try
+                if first:
+                    rep.ok(rid, fn, '%s: %s is turned into another exception '
+                           'by `except %s` around `%s`'
+                           % (K.name, what, short(hit.type, 40)
+                              if hit.type else '', short(c, 40)), fn.loc(c))
+                return False
+            why = _imposes_count(prog, fn, K, g, smap, res[1])
+            if why is None:
+                if first:
+                    rep.ok(rid, fn, '%s: %s is swallowed by `except %s`, '
+                           'nothing behind it gives all hosts one count'
+                           % (K.name, what, short(hit.type, 40)
+                              if hit.type else ''), fn.loc(c))
+                return False
+            if first:
+                rep.bad(rid, fn, '%s:refusal swallowed' % K.name,
+                        '%s.%s: the handler `except %s` around `%s` completes '
+                        'normally for the exception %s raises to refuse an '
+                        'allocation with two or more different counts (`%s`'
+                        '%s); behind the handler %s.  The refusal never '
+                        'reaches the caller of init_from_scratch: the pilot '
+                        'carries on and offers hosts with a core count the '
+                        'batch system did not assign there, instead of '
+                        'refusing the allocation'
+                        % (K.name, fn.name, short(hit.type, 40)
+                           if hit.type else '', short(c, 50), origin.qual,
+                           short(r, 70), '' if msg[1] else ', text starting '
+                           'with %r' % msg[0], why), fn.loc(hit),
+                        history='PBSPro: qstat -f reports exec_vnode = '
+                        '(vn1:ncpus=4)+(vn2:ncpus=2), cores_per_node: 4 '
+                        'configured, $PBS_NODEFILE lists vn1, vn2: instead of '
+                        '"detected vnodes of different sizes" the pilot offers '
+                        'vn1 and vn2 with 4 cores each - 2 cores of vn2 were '
+                        'never allocated')
+            return False
+        if first:
+            rep.ok(rid, fn, '%s: %s reaches the caller of %s (call `%s`: %s)'
+                   % (K.name, what, fn.name, short(c, 40),
+                      'handlers around it re-raise it' if any(
+                          any(x is c for s in t.body for x in ast.walk(s))
+                          for t in n.tries) else 'no handler around it'),
+                   fn.loc(c))
+        return True
+
+    n_ref = 0
+    for name, K in sorted(table.items()):
+        f = prog.find_method(K, 'init_from_scratch')
+        if f is None or f.cls is base:
+            continue                         # R18.1 reports
+        n_ref += len(escapes(top, K))
+    rep.stat('refusals_reaching_caller', n_ref)
+
+
+# ------------------------------------------------------------------------------
 # R18.12  the hardware-thread multiplier reaches the node tuples
 #
 # rm_info.threads_per_core (SMT) is the number of logical cores per physical
@@ -3361,7 +3941,10 @@ def run(prog, rep, tier):
         'the registry key written is the key read; an RM which consults '
         'threads_per_core hands it to a count-bearing parameter of the node file '
         'parser; the exec_vnode cursor loop drops exactly the separator it '
-        'searched for between two chunks.')
+        'searched for between two chunks; the refusal of a non-uniform '
+        'allocation (raise of a helper which hands on ONE count drawn from '
+        'the set of detected counts) is re-raised by every handler between '
+        'the helper and the caller of init_from_scratch.')
     rep.undecided = ('slot counting and name syntax of node files for '
         'arbitrary contents (which names / counts mark an LSF login or batch '
         'node, PBSPro vnodes); that the batch system allocated '
@@ -3381,6 +3964,10 @@ def run(prog, rep, tier):
         '`cpn` of _parse_nodefile supersedes the detected slot count of every '
         'host whenever it is true (its docstring; R18.7 checks that the '
         'parameter exists and is read)',
+        'R18.14: exception classes named like builtins are the builtins; a '
+        'handler is left normally only along its non-exception edges (a log '
+        'call inside a handler does not raise); `finally: return` does not '
+        'occur',
     ]
     table = rm_table(prog, rep)
     builders = r18_1(prog, rep, table)
@@ -3394,6 +3981,7 @@ def run(prog, rep, tier):
     rep.attempt(r18_10, prog, rep, table)
     rep.attempt(r18_12, prog, rep, table)
     rep.attempt(r18_13, prog, rep, table)
+    rep.attempt(r18_14, prog, rep, table)
     if tier == 'thorough':
         # sweep: any other class in the package deriving from ResourceManager
         # (not in the table) obeys R18.1 as well
@@ -3567,6 +4155,19 @@ _RES_BLOCKS = ("        if agent_nodes:\n"
                "                    rm_info.service_node_list.append(rm_info.node_list.pop())\n"
                "\n"
                "            assert service_nodes == len(rm_info.service_node_list)\n")
+
+# round 5 -----------------------------------------------------------------------
+_PBS_HND = ("            err_message = str(e)\n"
+            "            if not err_message.startswith('qstat failed'):\n"
+            "                raise\n"
+            "            self._log.debug_1(err_message)\n")
+_PBS_EXC = "        except RuntimeError as e:\n"
+_PBS_FLT = "            if not err_message.startswith('qstat failed'):\n"
+_PBS_REF = "            raise RuntimeError('detected vnodes of different sizes')\n"
+_PBS_TRY = ("        try:\n"
+            "            vnodes, rm_info.cores_per_node = self._parse_pbspro_vnodes()\n"
+            "            nodes = [(node, rm_info.cores_per_node) for node in vnodes]\n")
+_TRQ_CPN = "            rm_info.cores_per_node = self._get_cores_per_node(nodes)\n"
 
 
 def _res_helper(take="rm_info.node_list.pop()"):
@@ -3825,6 +4426,18 @@ MUTATIONS = [
     dict(name='R18.13 exec_vnode chunk keeps the bracket of the separator', rules=('R18.13',), edits=[
         (_PBS, _PBS_CHUNK, "            node_str = rhs[:idx]\n"),
         (_PBS, "        nodes_list = []\n", "        nodes_list = []\n        rhs = rhs[1:]\n")]),
+    dict(name='R18.14 seed C18-h6: PBSPro handler swallows every RuntimeError of the vnode parser', rules=('R18.14',), edits=[
+        (_PBS, _PBS_HND, "            self._log.debug_1('exec_vnodes not available: %s', e)\n")]),
+    dict(name='R18.14 PBSPro handler widened to Exception, logs only', rules=('R18.14',), edits=[
+        (_PBS, _PBS_EXC + _PBS_HND, "        except Exception as e:\n            self._log.debug_1(str(e))\n")]),
+    dict(name='R18.14 vnode parser refuses with ValueError, which the first handler swallows', rules=('R18.14',), edits=[
+        (_PBS, _PBS_REF, "            raise ValueError('detected vnodes of different sizes')\n")]),
+    dict(name='R18.14 PBSPro filter of the handler inverted', rules=('R18.14',), edits=[
+        (_PBS, _PBS_FLT, "            if err_message.startswith('qstat failed'):\n")]),
+    dict(name='R18.14 PBSPro filter also lets "detected ..." pass', rules=('R18.14',), edits=[
+        (_PBS, _PBS_FLT, "            if not err_message.startswith(('qstat failed', 'detected')):\n")]),
+    dict(name='R18.14 PBSPro re-raise moved under an unrelated condition', rules=('R18.14',), edits=[
+        (_PBS, _PBS_FLT, "            if not err_message.startswith('qstat failed') and not rm_info.cores_per_node:\n")]),
 ]
 
 SILENT = [
@@ -4041,4 +4654,47 @@ SILENT = [
         (_PBS, _PBS_LOOP, "        nodes_list = rhs[1:-1].split(')+(')\n")]),
     dict(name='exec_vnode: chunk appended without a temporary', edits=[
         (_PBS, _PBS_CHUNK + "            nodes_list.append(node_str)\n", "            nodes_list.append(rhs[1:idx])\n")]),
+    dict(name='PBSPro handler filter in positive form with else: raise', edits=[
+        (_PBS, _PBS_HND, "            if 'qstat failed' in str(e):\n"
+                         "                self._log.debug_1(str(e))\n"
+                         "            else:\n"
+                         "                raise\n")]),
+    dict(name='PBSPro handler: message from e.args, verdict in a local', edits=[
+        (_PBS, _PBS_HND, "            msg    = e.args[0]\n"
+                         "            benign = msg.startswith('qstat failed')\n"
+                         "            if not benign:\n"
+                         "                raise\n"
+                         "            self._log.debug_1(msg)\n")]),
+    dict(name='PBSPro handler re-raises by name', edits=[
+        (_PBS, "                raise\n            self._log.debug_1(err_message)\n",
+               "                raise e\n            self._log.debug_1(err_message)\n")]),
+    dict(name='PBSPro handler filter extracted into a helper method', edits=[
+        (_PBS, _PBS_FLT, "            if not self._is_benign(err_message):\n"),
+        (_PBS, "    def _parse_pbspro_vnodes(self) -> Tuple[List[str], int]:\n",
+               "    @staticmethod\n"
+               "    def _is_benign(text) -> bool:\n\n"
+               "        return text.startswith('qstat failed')\n\n"
+               "    def _parse_pbspro_vnodes(self) -> Tuple[List[str], int]:\n")]),
+    dict(name='PBSPro handlers merged, type told apart by isinstance', edits=[
+        (_PBS, "        except (IndexError, ValueError):\n"
+               "            self._log.debug_2('exec_vnodes not detected')\n\n"
+               + _PBS_EXC + _PBS_HND,
+               "        except (IndexError, ValueError, RuntimeError) as e:\n"
+               "            if isinstance(e, RuntimeError):\n"
+               "                if not str(e).startswith('qstat failed'):\n"
+               "                    raise\n"
+               "                self._log.debug_1(str(e))\n"
+               "            else:\n"
+               "                self._log.debug_2('exec_vnodes not detected')\n")]),
+    dict(name='vnode parser refuses by `!= 1` on a non-empty set, count by next(iter())', edits=[
+        (_PBS, "        if len(ncpus_set) > 1:\n", "        if ncpus_set and len(ncpus_set) != 1:\n"),
+        (_PBS, "        return sorted(vnodes_set), ncpus_set.pop()\n",
+               "        ncpus = next(iter(ncpus_set))\n        return sorted(vnodes_set), ncpus\n")]),
+    dict(name='Torque wraps the count detection in a handler which logs and re-raises', edits=[
+        (_RMD + 'torque.py', _TRQ_CPN,
+         "            try:\n"
+         "                rm_info.cores_per_node = self._get_cores_per_node(nodes)\n"
+         "            except ValueError:\n"
+         "                self._log.error('node file is not uniform')\n"
+         "                raise\n")]),
 ]
